@@ -6,8 +6,9 @@ CONSTANTS
   K = @K@
   KMut = @KMUT@
   KJson = @KJSON@
+  KRe = @KRE@
 INIT Init
 NEXT Next
 VIEW View
-INVARIANTS Emit RoundTrip1 RoundTrip2 ValuesValid Canonical1
+INVARIANTS Emit RoundTrip1 RoundTrip2 ValuesValid Canonical1 Reenc2Equivalent
 CHECK_DEADLOCK FALSE
